@@ -412,11 +412,11 @@ impl Prop for C19 {
             // measured: ~16 ms CPU per main case (2-3 trainings), ~50 ms per schedules case
             // (6 trainings, up to 32 threads each)
             Lane::new("main", tier.pick(4_000, 64_000))
-                .cap(tier.pick(90, 900))
-                .floor(tier.pick(600, 10_000)),
+                .cap(tier.pick(180, 1500))
+                .floor(tier.pick(400, 8_000)),
             Lane::new("schedules", tier.pick(800, 12_000))
-                .cap(tier.pick(90, 900))
-                .floor(tier.pick(150, 2_500)),
+                .cap(tier.pick(180, 1500))
+                .floor(tier.pick(100, 2_000)),
         ]
     }
 
